@@ -49,6 +49,7 @@ type KReq struct {
 	Key int
 	Val []byte
 	Rev uint64 // expected revision (update / delete)
+	Sym int    // how Rev is to be derived once the initial state exists (SymLit = as given)
 }
 
 func (q KReq) Coq() string {
@@ -116,11 +117,11 @@ func (r KResp) Class() string {
 
 // KState is the raw content of one key: index record and version records.
 type KState struct {
-	HasIdx  bool
-	IdxRev  uint64
-	IdxDel  bool
-	Vers    []KVer
-	BadIdx  bool // index value that is neither 8 nor 9 bytes
+	HasIdx bool
+	IdxRev uint64
+	IdxDel bool
+	Vers   []KVer
+	BadIdx bool // index value that is neither 8 nor 9 bytes
 }
 type KVer struct {
 	Rev uint64
@@ -164,20 +165,20 @@ var kindCoq = map[string]string{"start": "KStart", "engine.iter": "KIter", "engi
 
 // KCase is a finished case.
 type KCase struct {
-	Engine    string
-	Cidx0     bool
-	D0        uint64
-	Init      []KState
-	Progs     [][]KReq
-	Steps     []KStep
-	Final     []KState
-	Marker    uint64
-	FinalRev  uint64
-	Stalled   bool
+	Engine        string
+	Cidx0         bool
+	D0            uint64
+	Init          []KState
+	Progs         [][]KReq
+	Steps         []KStep
+	Final         []KState
+	Marker        uint64
+	FinalRev      uint64
+	Stalled       bool
 	MarkerVisible bool
-	Choices   []int   // thread chosen at each step
-	Alive     [][]int // threads that could have been chosen at each step
-	Note      string
+	Choices       []int   // thread chosen at each step
+	Alive         [][]int // threads that could have been chosen at each step
+	Note          string
 }
 
 func (c *KCase) Coq() string {
@@ -711,7 +712,7 @@ func (n *KBNode) RunCase(spec KBSpec) (*KCase, error) {
 	}
 	c.Stalled = !n.WaitRev(c.Marker, 2*time.Second) || c.Marker == 0
 	c.FinalRev = n.B.GetCurrentRevision()
-	if lr, err := n.B.List(context.Background(), &proto.RangeRequest{Key: mk, End: append(append([]byte{}, mk...), 0)}); err == nil {
+	if lr, err := n.B.List(context.Background(), &proto.RangeRequest{Key: mk, End: append(append([]byte{}, mk...), 0x7e)}); err == nil {
 		for _, kv := range lr.Kvs {
 			if bytes.Equal(kv.Key, mk) {
 				c.MarkerVisible = true
@@ -724,14 +725,8 @@ func (n *KBNode) RunCase(spec KBSpec) (*KCase, error) {
 	return c, nil
 }
 
-// GoWith is Sched.Go with a callback that runs on the new goroutine before it parks.
+// GoWith is Sched.Go with a callback that runs on the new goroutine before it parks at "start".
 func (s *Sched) GoWith(name string, onStart func(goid int64), f func()) *Thread {
-	return s.Go(name, func() {}).replaceWith(s, name, onStart, f)
-}
-
-// replaceWith discards the placeholder thread and starts the real one (keeps Sched.Go untouched).
-func (t *Thread) replaceWith(s *Sched, name string, onStart func(goid int64), f func()) *Thread {
-	s.Release(t, time.Second)
 	nt := &Thread{Name: name, resume: make(chan struct{}), parked: make(chan string, 1), done: make(chan struct{})}
 	s.mu.Lock()
 	s.byName[name] = nt
@@ -748,6 +743,7 @@ func (t *Thread) replaceWith(s *Sched, name string, onStart func(goid int64), f 
 		defer func() {
 			s.mu.Lock()
 			delete(s.threads, nt.goid)
+			delete(s.byName, name)
 			s.mu.Unlock()
 			close(nt.done)
 		}()
